@@ -226,17 +226,16 @@ CLAIMS['C11'] = {
     'technique': 'Lean 4 completeness proof over the sequential semantics (program logic + exact-result lemmas) + single-slot differential',
 }
 CLAIMS['C14'] = {
-    'text': ('Theorems tree_table_partition / class_table_add: for every tree table (classes < 8, counters within a tree) the per-class rows produced '
-             'by Trees::stats sum to trees*TREE_FRAMES (free+allocated) and their free counts to the total. Theorems tree_stats_free_sum / '
-             'fold_slots_is_list_fold: the WHOLE program LLFree::tree_stats (tree pass + both passes over the local slots; Locals::foldSlots proved to be '
-             'the left fold over the present slots in class order), in every state satisfying the upper invariant, never panics, reads only, returns '
-             'free_frames = sum of the tree counters + sum of the counters of the present reservations, keeps 8 class rows, and the per-class free '
-             'counts sum to exactly the fast total (third sentence of the property).' + PART + 'the second sentence for the whole program '
-             '(free+allocated summed over the classes = trees*TREE_FRAMES after the slot correction of F9) needs that the saturating correction never '
-             'saturates - a counting argument over the slot/class partition that is not proved; carried by the partition oracle of the correspondence '
-             '(after every call, with reservations present and after drains).'),
+    'text': ('Theorem tree_stats_partition: the WHOLE program LLFree::tree_stats (tree pass + both passes over the local slots with the saturating slot '
+             'correction of F9), in every state satisfying the upper invariant (every quiescent state of every sequential history of a constructed '
+             'allocator), never panics, reads only, and returns per-class rows with sum over the classes of free+allocated = trees*TREE_FRAMES and sum of '
+             'the per-class free counts = the fast total free count - all three sentences of the property. The correction never saturates because every '
+             'class covers the reservations on its trees (need_le_alloc: distinct reserved trees, reservation <= TREE_FRAMES - tree counter by exact '
+             'accounting, and the slots visited class by class are exactly the present slots: partition argument). Theorems tree_table_partition / '
+             'tree_stats_free_sum / fold_slots_is_list_fold / class_table_add are the parts (tree table; Locals::foldSlots is the left fold over the '
+             'present slots in class order).'),
     'note': TB + ' Holds for configurations satisfying CfgOk.',
-    'technique': 'Lean 4 induction over the tree table and over the slot fold (program logic) + sequential differential with partition oracle',
+    'technique': 'Lean 4 induction over the tree table and over the slot fold (program logic), partition/counting argument for non-saturation + sequential differential with partition oracle',
 }
 CLAIMS['C15'] = {
     'text': ('Theorems change_tree_spec / offline_no_slot / change_only_matching / change_reserved_never / offline_succeeds / offline_free_tree / online_restores / '
